@@ -112,6 +112,11 @@ Inductive case :=
    operations of different fractions): file sets of the rebuilt directory, restart observed (None = died) *)
 | CPar (sorted : bool) (dir : list fracst) (kinds : list lkind) (k : nat) (log : list (nat * xop)) (crash : nat)
        (state : list (list kind)) (impl : option (list fracobs))
+(* regression class of fix 14be38b: as CPar, but the restarted process also runs the next retention pass with
+   the given limit; sizes = what it reported per fraction before that pass (0 = not listed), served = which
+   fractions it lists afterwards *)
+| CGap (sorted : bool) (dir : list fracst) (kinds : list lkind) (k : nat) (log : list (nat * xop)) (crash : nat)
+       (state : list (list kind)) (sizes : list N) (limit : N) (served : list bool)
 (* power loss around a save of .frac-cache: the file holds `keep` of `full` bytes; parsed = encoding/json
    accepted the cut content; rest as CCache (strict) *)
 | CCachePL (full keep : N) (parsed : bool) (l : list cinfo) (expected ok wrong : N)
@@ -178,6 +183,30 @@ Fixpoint parlog_ok (i : nat) (dir : list fracst) (outs : list bool) (log : plog)
                      && residue_ok true (final_fs (fs_of (st_files f)) ops)))
       && parlog_ok (S i) dr orr log
   | _, _ => false
+  end.
+
+(* the pass deletes its outsiders one after another, oldest first: no operation of an older fraction after
+   one of a newer fraction *)
+Fixpoint log_sequential (cur : nat) (l : plog) : bool :=
+  match l with
+  | [] => true
+  | (j, _) :: r => (cur <=? j) && log_sequential j r
+  end.
+
+(* served flags of the fractions that had documents, were listed and not doomed before the pass *)
+Fixpoint served_flags (dir : list fracst) (kinds : list lkind) (o : list fracobs) : list bool :=
+  match dir, kinds, o with
+  | f :: dr, l :: kr, ob :: orr =>
+      if st_hasdata f && negb (lkind_none l) && negb (st_doomed f)
+      then negb (lkind_none (o_listed ob)) :: served_flags dr kr orr
+      else served_flags dr kr orr
+  | _, _, _ => []
+  end.
+
+Fixpoint pick_sizes (flags : list bool) (sizes : list N) : list N :=
+  match flags, sizes with
+  | b :: br, z :: zr => if b then z :: pick_sizes br zr else pick_sizes br zr
+  | _, _ => []
   end.
 
 Fixpoint states_eqb (a : list fs) (b : list (list kind)) : bool :=
@@ -289,6 +318,15 @@ Definition case_agrees (c : case) : bool :=
          | Some _, None => existsb (broken sorted) d'
          | None, Some _ => false
          end
+  | CGap sorted d kinds k log crash state sizes limit served =>
+      let pre := firstn crash log in
+      states_eqb (apply_log pre (map (fun f => fs_of (st_files f)) d)) state
+      && match load_dir sorted (restate 0 d state pre) with
+         | Some m =>
+             let served0 := map (fun x => negb (lkind_none (fst x))) m in
+             list_eqb Bool.eqb (pat (shrink limit (pick_sizes served0 sizes)) served0) served
+         | None => false
+         end
   | CCachePL full keep parsed l _ _ _ =>
       Bool.eqb parsed (match pf_parse (mkpf [] (N.to_nat keep) (N.to_nat full)) with Some _ => true | None => false end)
       && forallb (fun c => info_eqb (new_sealed (if parsed then ci_entry c else None) (ci_hdr c)) (ci_impl c)) l
@@ -323,12 +361,15 @@ Definition case_spec_ok (c : case) : bool :=
       negb strict || (forallb (fun c => info_eqb (ci_hdr c) (ci_impl c)) l && N.eqb ok expected && N.eqb wrong 0)
   | CParLog sorted d kinds k log =>
       forallb (fun e => nth (fst e) (outsiders k kinds) false) log && parlog_ok 0 d (outsiders k kinds) log
+      && log_sequential 0 log
   | CPar sorted d kinds k log crash state impl =>
       let pre := firstn crash log in
       match impl with
       | None => false
       | Some o => frs_ok (restate 0 d state pre) o && untouched_served 0 d kinds pre o
+                  && prefix_shape (served_flags d kinds o)       (* oldest first in every crash state *)
       end
+  | CGap sorted d kinds k log crash state sizes limit served => prefix_shape served
   | CCachePL full keep parsed l expected ok wrong =>
       forallb (fun c => info_eqb (ci_hdr c) (ci_impl c)) l && N.eqb ok expected && N.eqb wrong 0
   | CSaveOps ops => write_before_rename ops false
